@@ -76,6 +76,23 @@ Theorem C01_movein_delivered : forall C full w' wd c q, c_recursive C = true ->
 Proof. exact delivered_movein. Qed.
 Print Assumptions C01_movein_delivered.
 
+(* ... and over an EMPTY DIRECTORY of the tree (C02_step_rename_dir_in_over): the delivered stream is the stream of the move-in
+   followed by events about the replaced directory (DirModified(q) from its IN_ATTRIB; its IN_DELETE_SELF and IN_IGNORED
+   emit nothing), which leave the replayed tree alone.  One-step law; NOT yet a disjunct of c01_op: C03's
+   SoundSeqProofs.c01x_np states "no directory is replaced" (novictim) for every operation of c01_x, which this operation
+   violates - the classes have to be split there first. *)
+Theorem C01_replay_step_in_over : forall C full w k r p q ep v w' t, c_faults C = [] -> c_mask C = WATCHDOG_ALL -> RSync C w k r ->
+  npath p -> npath q -> c_recursive C = true -> c_fix_movein C = true ->
+  flookup p (w_fs w) = Some ep -> f_dir ep = true -> ~ scope C p -> under p (c_root C) = false -> scope C q -> q <> c_root C ->
+  flookup q (w_fs w) = Some v -> f_dir v = true -> apply_op w (Rename p q) = Some w' -> TInv (c_recursive C) (c_root C) t w ->
+  let k1 := kernel_op k (w_fs w) (Rename p q) in
+  exists r' k' raws,
+    read_batch C (w_fs w') (r, drainq k1, []) (k_queue k1) = Done (r', k', raws) /\ RSync C w' k' r' /\
+    deliver_one C full w k r (Rename p q) = Some (delivered C full w' raws) /\
+    TInv (c_recursive C) (c_root C) (replay (c_recursive C) (c_root C) t (delivered C full w' raws)) w'.
+Proof. exact replay_step_in_over. Qed.
+Print Assumptions C01_replay_step_in_over.
+
 (* ---- sequential histories of any length over trees of any size: every operation is followed by a read of the
    whole kernel queue and the emission of the grouped items ([drun] accumulates the stream) *)
 Theorem C01_sequential_synced_partial : forall C full, c_faults C = [] -> c_mask C = WATCHDOG_ALL ->
@@ -218,7 +235,7 @@ Definition tree_eq (a b : tree) : Prop := forall p, alookup beqb p a = alookup b
    followed by a full drain of the Pipeline model (ARead of the whole kernel queue, then AEmit / ATick until the
    delay queue is empty).
    MISSING relative to C01_sequential_partial: (a) the operation kinds outside c01_x - a directory moved into the
-   tree over an empty directory, a directory moved out onto an existing name, a directory renamed
+   tree over an empty directory (its one-step law is C01_replay_step_in_over; not yet in c01_op), a directory moved out onto an existing name, a directory renamed
    over an empty directory, an operation inside a directory that has just left the tree (before the next record),
    directory renames under a non-recursive watch or entirely outside the tree (C02 covers their watch state, their
    replay is not proved), Chmod of the root; (b) [seq_run]'s drain (AEmit / ATick driven by the queue) instead of the
@@ -547,6 +564,12 @@ Example C01_two_out_instance : forall full,
 Proof.
   intros full. exact (C01_from_start_x2_partial (cfgo true) full eq_refl eq_refl eq_refl two_out_ops1 w0 w0_wf eq_refl C01_two_out_ops_x12).
 Qed.
+
+
+(* mkdir R/t; mv O/d R/t (a directory with content over an empty directory); touch R/t/e/f : computed on the model *)
+Example C01_in_over_computed :
+  run_replay (cfgo true) [Mkdir (sub pR 116); Rename (sub pO 100) (sub pR 116); Touch (sub (sub (sub pR 116) 101) 102)] = Some true.
+Proof. vm_compute. reflexivity. Qed.
 
 (* ================================================================== bursts of file-level operations *)
 (* Several FILE-LEVEL operations (touch, write, chmod of a file, unlink, file renames inside / in / out / replacing a file - the
